@@ -130,6 +130,7 @@ def run(ctx):
     composed = [{"calls": a + [{"op": "reset", "sz": 0}] + b_} for a in first for b_ in second]
     rh += simulated(ctx, "MC_Reader", "MC_Reader", 7, 400 if q else 5000)
     rh += composed
+    rh += [{"calls": b_} for b_ in second]           # the same second lives on a new object (reference of reset_is_new)
     # one valid frame (3 blocks, content checksum, declared size) as the source
     fw = {"id": 1, "input": {"family": "text", "len": 150000, "seed": 9}, "save": os.path.join(d, "frame.lz4"),
           "opts": {"code": 4, "bcs": True, "ccs": True, "level": 0, "conc": 1, "legacy": False, "handler": False, "size": 150000},
@@ -156,6 +157,7 @@ def run(ctx):
                 f.write(json.dumps(e, separators=(",", ":")) + "\n")
     acc, rej = vlib.validate_trace(ctx, "Reader_Trace", tp, timeout=1800, max_reject=6)
     ctx.sample({"reader_sequence": rcases[77]["calls"], "events": rseq_events(rrecs[rcases[77]["id"]], total)})
+    reset_is_new(ctx, b, d, rcases, rrecs)
     for rj in rej:
         rec = json.loads(rj["line"])
         c = by_r[rec["case"]]
@@ -186,6 +188,61 @@ def run(ctx):
         ctx.violation(key, "Reader call sequence is not a behaviour of Reader.tla: %s" % key,
                       {"kind": "c17-reader", "case": {k: v for k, v in c.items() if k != "chunks"}, "frame": fw, "observed": rr[c["id"]],
                        "rejected_event": json.loads(rej2[0]["line"])})
+
+
+def observable(call, conc=1):
+    # (how far a concurrent Reader has read ahead in its source when a call returns depends on the schedule)
+    return {k: call.get(k) for k in ("op", "sz", "n", "err", "size") + (("cons",) if conc == 1 else ())}
+
+
+def reset_is_new(ctx, b, d, rcases, rrecs):
+    """C17: "Reset makes the object indistinguishable from a new one with the same options" - taken literally: whatever
+    calls follow the last Reset of a sequence, their results (count, error class, source bytes consumed, Size) are the
+    results of the same calls on a new Reader (same concurrency, same source).  The reference run is the one TLC's
+    enumeration contains anyway (every sequence is a sequence on a new object); no model of what the results should be."""
+    fresh = {}
+    for c in rcases:
+        if not any(x["op"] == "reset" for x in c["calls"]):
+            fresh[(json.dumps(c["calls"]), c["conc"], bool(c["trailing"]))] = c
+    compared = 0
+    for c in rcases:
+        ops = [x["op"] for x in c["calls"]]
+        if "reset" not in ops:
+            continue
+        k = len(ops) - 1 - ops[::-1].index("reset")
+        tail = c["calls"][k + 1:]
+        if not tail:
+            continue
+        ref = fresh.get((json.dumps(tail), c["conc"], bool(c["trailing"])))
+        if ref is None:
+            continue
+        r, rr = rrecs[c["id"]], rrecs[ref["id"]]
+        if r["hung"] or rr["hung"] or len(r["calls"]) != len(c["calls"]) or len(rr["calls"]) != len(tail):
+            continue
+        compared += 1
+        got, want = [observable(x, c["conc"]) for x in r["calls"][k + 1:]], [observable(x, c["conc"]) for x in rr["calls"]]
+        if got == want:
+            continue
+        i = next(j for j in range(len(tail)) if got[j] != want[j])
+        names = ["%s(%d)" % (x["op"], x["sz"]) if x["op"] == "read" else x["op"] for x in c["calls"]]
+        key = "C17:reader:reset-is-not-new:conc=%d:%s:%s->err=%s(new:%s)" % (c["conc"], "-".join(names[:k + 1]), "-".join(names[k + 1:k + 2 + i]), got[i]["err"], want[i]["err"])
+        if any(v[0] == key for v in ctx.violations):
+            continue
+        # re-execute both (concurrent objects: up to 10 times)
+        again = None
+        for attempt in range(10 if c["conc"] != 1 else 2):
+            r2, _ = fl.shard_run(b, "reader-seq", [c, ref], d, "rin", nshards=1, extra=("--watchdog", "30s"))
+            if c["id"] in r2 and ref["id"] in r2 and not r2[c["id"]]["hung"] and not r2[ref["id"]]["hung"]:
+                g2, w2 = [observable(x, c["conc"]) for x in r2[c["id"]]["calls"][k + 1:]], [observable(x, c["conc"]) for x in r2[ref["id"]]["calls"]]
+                if g2 != w2:
+                    again = (g2, w2)
+                    break
+        if again is None:
+            ctx.unreproducible(key)
+            continue
+        ctx.violation(key, "after Reset the Reader does not behave like a new one: %s" % key,
+                      {"kind": "c17-reset-new", "case": c, "fresh": ref, "after_reset": again[0], "new_object": again[1]})
+    ctx.extra["reset_is_new_comparisons"] = compared
 
 
 def rseq_events(r, total):
@@ -221,6 +278,17 @@ def replay(ctx, path):
     rp = json.load(open(path))
     b = vlib.build_harness()
     d = vlib.scratch("c17r")
+    if rp["kind"] == "c17-reset-new":
+        c, ref = rp["case"], rp["fresh"]
+        ops = [x["op"] for x in c["calls"]]
+        k = len(ops) - 1 - ops[::-1].index("reset")
+        for attempt in range(10):
+            r2, _ = fl.shard_run(b, "reader-seq", [c, ref], d, "rin", nshards=1, extra=("--watchdog", "30s"))
+            if [observable(x, c["conc"]) for x in r2[c["id"]]["calls"][k + 1:]] != [observable(x, c["conc"]) for x in r2[ref["id"]]["calls"]]:
+                print("VIOLATION property=%s replay=%s" % (ctx.prop, path))
+                return 1
+        print("replay: deviation not observed")
+        return 0
     if rp["kind"] == "c17-writer":
         recs, _ = fl.shard_run(b, "frame-write", [rp["case"]], d, "again", nshards=1, extra=("--watchdog", "30s"))
         rej = fl.validate_writer_runs(ctx, [recs[rp["case"]["id"]]], d)
